@@ -43,10 +43,10 @@ def run(tier, seed):
         data = bytes((rnd.randrange(256) if i % 3 else (i * 37) % 256) for i in range(n))
         for off in (0, 1, 15, 16, 4096):
             for prefix in ("", "> ", "{0} ", "{{x}} ", "%s|", "{"):
-                plain = utils.hexdump(data, offset=off, prefix=prefix, output="string")
                 ok = True
                 obs = None
                 try:
+                    plain = utils.hexdump(data, offset=off, prefix=prefix, output="string")
                     if n:
                         offs, back = parse_dump(plain, prefix)
                         ok = back == data and offs == [off + 16 * i for i in range((n + 15) // 16)]
